@@ -798,6 +798,12 @@ def linked_to_model(nodes):
     return "(g %s)" % " ".join(out), ptx, [r.s for r in rules], actmap
 
 
+def undef_bits(nodes):
+    """one character per rule slot: 1 when the slot was created for a name that has no definition"""
+    return "".join("1" if (r.kids and r.kids[0].t == T_IPUSH and r.kids[0].kids and r.kids[0].kids[0].t == T_NIL
+                           and r.kids[0].kids[0].s == "<undefined>") else "0" for r in nodes if r.t == T_RULE)
+
+
 def flags_of(nodes):
     """list of (path, type, pd, mk) for nodes with a skip-check flag set (for the -switch tie)"""
     res = []
